@@ -197,7 +197,13 @@ def run(tier, seed, drv):
         res.count("with-interrupts" if scn.get("stims") else "callbacks-only")
         # with processing costs the run is compared with the cost model (Core/SimCost): flat configurations, no stimulus
         # exactly at the end instant of a tick (there the code goes by event order, the model by the clock)
-        costable = (not zero_cost) and not S.systems(scn) and not clock_tie(run_)
+        # (the whole-simulation model records a component's answer with the plain wakeup rule; the master's guard "a pending
+        # interrupt is not displaced by a later callback request" matters only when a tick for an EARLIER, overdue time updates an
+        # interrupted device as a dependant and that device asks for a callback - possible only with processing costs; such
+        # runs are left to the monitors)
+        risky = any(d["inputs"] and d["beh"].get("cb", {}).get("kind", "none") != "none" and any(st["comp"] == d["name"] for st in scn.get("stims", []))
+                    for d in S.devices(scn))
+        costable = (not zero_cost) and not S.systems(scn) and not clock_tie(run_) and not risky
         res.count("cost-model-compared" if costable else ("cost-model-not-applicable" if not zero_cost else "zero-cost-model"))
         SC.check_run(scn, run_, drv, res, monitors_on=("pacing", "interrupt_stamp"), corr=("ticks",) if (zero_cost or costable) else (),
                      case_extra={"bus": "sync"}, with_real=zero_cost or costable, with_costs=costable)
